@@ -326,7 +326,10 @@ class LocationTable:
         with self.loc_t_lock:
             self.loc_t = {
                 gn: entry for gn, entry in self.loc_t.items()
-                if (current_time - entry.position_vector.tst) <= self.mib.itsGnLifetimeLocTE * 1000
+                # signed wrap-around age: a position time stamp slightly ahead of the
+                # (second-truncated) local clock yields a small negative age, not ~2^32
+                if ((current_time - entry.position_vector.tst) + 2**31) % 2**32 - 2**31
+                <= self.mib.itsGnLifetimeLocTE * 1000
             }
 
     def new_shb_packet(
